@@ -19,6 +19,12 @@ META = {
         "Trusts the hash function; writes through plain-ndarray escapes (.view(np.ndarray), np.asarray, memoryview) and writes into the user array a TrackedArray was created from are outside the domain (see evidence assumptions).",
         "DESIGN.md section 4 C02",
     ),
+    "C07": (
+        "hypothesis 'dirty' tagged meshes (duplicate / unreferenced / non-finite vertices, repeated and degenerate faces) x re-indexing operations and options; tag-tracking oracle mapping every output element back to its source",
+        "Generated search: meshes whose faces, vertices, colours, attributes, uv and cached normals carry a unique encoding of the original element index are put through merge_vertices (all option combinations, vertices exactly equal / inside / straddling / outside the merge cell), update_faces (bool / int / repeated int masks), update_vertices, remove_unreferenced_vertices, unmerge_vertices, remove_infinite_values, unique / nondegenerate face masks, process, submesh, split, concatenate / + / sum and the processing constructor; every output face is traced to a source face: corner positions (exact, or within the merge tolerance), relative order, per-face and per-vertex data, index validity, merge soundness and completeness, split + concatenate = original triangle multiset. Exploration only.",
+        "data an operation documents as not carried may be absent, never misaligned; attribution is only asserted where repeated faces leave it unambiguous.",
+        "DESIGN.md section 4 C07",
+    ),
     "C08": (
         "hypothesis geometries x exporter/option grid x loader entry x transport; storage-rule oracle (float32 cast / fixed decimals / exact) compared triangle by triangle in order, independent byte decoders for STL/OFF, purity and determinism checks",
         "Generated search: single faces, soups with all-distinct vertices, pool solids, coordinates from 1e-30 to 1e30, face / vertex colours, PLY attributes, >=65536 vertices (index width), coloured point clouds, nested instanced scenes, through stl, stl_ascii, ply (binary/ascii, normals, attributes), off, obj (option sets), glb, gltf (file dict + resolver, merge_buffers), 3mf, dae, dict, dict64, xyz and back through load / load_mesh / load_scene from a stream and from a file path with process=False; loaded.triangles[i] must equal the format's storage rule applied to source.triangles[i] for every i in order (bit-exact where the rule is a cast or lossless), counts, colours, attributes and instance placement preserved, the source hash/bytes unchanged by export and two exports identical. A complete grid covers format x option set x entry x transport x colour kind on one asymmetric mesh. Exploration only; paths and binvox are decided in C14 / C13.",
@@ -60,6 +66,12 @@ META = {
         "Generated search: scenes with a random forest of frames (rigid and similarity edges, depth<=4), meshes / point cloud / 3D path instanced 0..n times, optionally followed by graph edits, in-place edits of shared geometry, add/delete geometry with reads in between; bounds, extents, centroid, scale, triangles (+node attribution), area, volume, center_mass, moment_inertia, convex hull, dump, to_mesh are recomputed by placing a copy of every geometry at every referencing node with the world transform from our own forest model (own signed-tetrahedra integrals); copy, scaled(scalar | per axis), rezero, convert_units, apply_transform, a+b and subscene must keep (scale / move) the multiset of placed triangles and leave the source byte-identical. Exploration only.",
         "edge transforms are rigid or positive similarities; meshes without unreferenced vertices; scipy ConvexHull trusted for the reference hull volume.",
         "DESIGN.md section 4 C10",
+    ),
+    "C12": (
+        "hypothesis meshes under similarity placement with rays / query points built by construction in general position (margin filters with reported discard rate); brute-force oracle over all triangles (Moller-Trumbore, Ericson closest point, generalized winding number); both ray engines",
+        "Generated search: pool meshes at scales 1e-3..1e4 and far offsets; rays aimed at triangle interiors from inside / outside / far origins, axis-aligned rays and misses, kept only when every brute-force hit is a fixed margin from edges, grazing and the origin; native and embree engines, single and multiple hits: the set of (ray, triangle) hits, locations on ray and triangle, first hit = nearest, any = non-empty, engines agree; contains vs winding number; nearest.on_surface / vertex / signed_distance vs the minimum over all triangles with the documented sign. Exploration only.",
+        "embree tolerances derived from float32 resolution of the scaled scene; surface distance compared at tol.merge (the tie rule pinned by tests/test_proximity.py).",
+        "DESIGN.md section 4 C12",
     ),
     "C13": (
         "exhaustive enumeration of short boolean/integer sequences (also inflated across the count-dtype maxima) and of all small boolean arrays x encoding classes x lazy view chains, pure-python reference codec and numpy-on-dense oracle; hypothesis for grids and binvox",
